@@ -280,6 +280,49 @@ def main(inp, outp):
                        and np.linalg.norm(via[:3] - np.asarray(there, float)[:3]) <= 1e-5, "frames/history-dates",
                        f"orientation {orientation}, {dt_s} s after the first date: round trip off by {np.linalg.norm(back[:3] - x0[:3]):.4g} m, "
                        f"via MOD differs by {np.linalg.norm(via[:3] - np.asarray(there, float)[:3]):.4g} m", {"orientation": orientation, "dt_s": dt_s})
+        # a frame attached to an EPHEMERIS (Ephem.as_frame): the ephemeris goes on being used for other things - resampled, its points
+        # converted in place by the consumer (what TopocentricFrame.visibility does), tabulated again - and the frame conversions at
+        # the dates those uses touched must be what a fresh ephemeris + frame give
+        ebase = oref.ephem(start=date0 - timedelta(seconds=1800), stop=timedelta(seconds=5400), step=timedelta(seconds=60))
+        for orientation in ("QSW", None):
+            tag = orientation or "N"
+            fe = ebase.as_frame(f"VfEph{tag}", orientation=orientation, exists_warning=False)
+            uses = []
+            for use in ("none", "resampled-in-place", "visibility", "sub-ephem"):
+                if use == "resampled-in-place":
+                    last = None
+                    for p_ in ebase.iter(start=date0, stop=timedelta(seconds=900), step=timedelta(seconds=45)):
+                        p_.frame = "ITRF"
+                        p_.form = "spherical"
+                        last = p_.date
+                    uses.append(last)
+                elif use == "visibility":
+                    last = None
+                    for p_ in station.visibility(ebase, start=date0, stop=timedelta(seconds=1200), step=timedelta(seconds=50), events=True):
+                        last = p_.date
+                    uses.append(date0 + timedelta(seconds=1200))
+                    if last is not None:
+                        uses.append(last)
+                elif use == "sub-ephem":
+                    sub = ebase.ephem(start=date0 + timedelta(seconds=100), stop=timedelta(seconds=700), step=timedelta(seconds=35))
+                    sub.frame = "TOD"
+                    uses.append(sub.stop)
+                # the date the last use ended on comes FIRST (nothing else is asked of the ephemeris in between)
+                for dchk in [u for u in uses if u is not None][::-1] + [date0]:
+                    a0 = StateVector(x0, dchk, "cartesian", "EME2000")
+                    there = np.asarray(a0.copy(frame=fe), float)
+                    again = np.asarray(a0.copy(frame=fe), float)
+                    back = np.asarray(StateVector(there, dchk, "cartesian", fe).copy(frame="EME2000"), float)
+                    efresh = oref.ephem(start=date0 - timedelta(seconds=1800), stop=timedelta(seconds=5400), step=timedelta(seconds=60))
+                    ffresh = efresh.as_frame(f"VfEphFresh{tag}", orientation=orientation, exists_warning=False)
+                    want = np.asarray(a0.copy(frame=ffresh), float)
+                    res["evaluations"] += 1
+                    clause("a frame attached to an ephemeris converts as a fresh one does, whatever the ephemeris was used for in between (round trip, repeatability)",
+                           np.linalg.norm(there[:3] - want[:3]) <= 1e-5 and np.linalg.norm(there[3:] - want[3:]) <= 1e-8 and np.array_equal(there, again)
+                           and np.linalg.norm(back[:3] - x0[:3]) <= 1e-5, "frames/history-ephem-frame",
+                           f"orientation {orientation}, after '{use}', at {dchk}: {np.linalg.norm(there[:3] - want[:3]):.4g} m from the conversion through a fresh "
+                           f"ephemeris and frame; repeated conversion differs by {np.linalg.norm(there[:3] - again[:3]):.4g} m; round trip off by "
+                           f"{np.linalg.norm(back[:3] - x0[:3]):.4g} m", {"orientation": orientation, "use": use, "date": str(dchk)})
         # an orbit-attached frame registered again under the same name with another orbit
         date = Date(*job["dates"][0])
         o1 = Orbit([7.3e6, 0.03, 1.1, 0.4, 1.2, 2.1], date, "keplerian", "EME2000", "Kepler")
